@@ -17,9 +17,10 @@ func checkC08(e *Engine, r *Report) {
 		"R5 paired update: every `result-chain.Union(X)` in pkg/cpuallocator has, in the same basic block, `from-chain.Difference(X)` with the same X (and vice versa), and the count is reduced by `X.Size()` in that block — or the block is one of the two reviewed exact-size sites whose guard is checked; the helper's result/from/cnt fields are written only by the take* stages (as a triple when copied back from locals), by allocateCpus' set-up and on freshly created nested helpers",
 		"R2 count gate: allocate() returns the accumulated result only when the remaining count is 0 and an empty set otherwise",
 		"R3 write-back discipline: the caller's set is written only in allocateCpus — not at all when it is too small (error, empty result), emptied when exactly the whole set is taken (result = a clone of it), replaced by the helper's remainder otherwise; ReleaseCpus allocates |set|-n and leaves n",
+		"R12 pick/take agreement: a stage that first picks idle units with a predicate `S(unit) ∩ remaining == S(unit)` and then takes T(unit) per picked unit takes T ⊆ S — the same symbolic set of the unit (Venn algebra over canonicalised expressions of the filter closure and the loop body)",
 		"R10 determinism: no map iteration, randomness, clock, goroutine or select influences the allocation path; every comparator handed to a sort in that path ends in a comparison of ids",
 	}
-	r.NotDecided = []string{"that the stages always find n CPUs when n <= |set| on every topology (a value-level reachability question)", "that each X is a subset of the remaining set at the point of the update (provenance is value-level; the structural part — same X on both sides — is decided)", "optimality of the choice"}
+	r.NotDecided = []string{"that the stages always find n CPUs when n <= |set| on every topology (a value-level reachability question)", "that each X is a subset of the remaining set at the point of the update, for the stages driven by sorter tables (clusters, cache groups: provenance is value-level; the structural part — same X on both sides — is decided; for the pick-predicate stages the agreement of predicate and take is decided)", "optimality of the choice"}
 	r.Assumptions = []string{"cpuset.CPUSet operations are pure set algebra"}
 
 	helperT := e.Named(pkgCPUA, "allocatorHelper")
@@ -437,6 +438,89 @@ func checkC08(e *Engine, r *Report) {
 			}
 		}
 		r.Check("R3:release-is-complement", "R3 write-back discipline", "ReleaseCpus(set, n) allocates |set|-n from the set, leaving exactly n behind", e.Pos(release.Pos()), release, okRel, "", true)
+	}
+
+	// ---- rule 5: pick/take agreement ----------------------------------------------------------
+	{
+		pick := r.Anchor(pkgCPUA, "pickIds")
+		nAgree := 0
+		for _, fn := range fns {
+			if pick == nil || fn.Parent() != nil {
+				continue
+			}
+			for _, pc := range e.callsTo(fn, pick) {
+				// the predicate closure
+				var pred *ssa.Function
+				Origins(callArgs(pc)[1], func(v ssa.Value) bool {
+					if mc, ok := v.(*ssa.MakeClosure); ok {
+						pred, _ = mc.Fn.(*ssa.Function)
+						return true
+					}
+					return false
+				})
+				if pred == nil {
+					continue
+				}
+				// checked set: Equals(Intersection(S, from), S)
+				var checked ssa.Value
+				AllInstrsOf(pred, func(in ssa.Instruction) {
+					eq, ok := isSetOp(valueOf(in), "Equals")
+					if !ok {
+						return
+					}
+					for _, pair := range [][2]ssa.Value{{eq.Common().Args[0], eq.Common().Args[1]}, {eq.Common().Args[1], eq.Common().Args[0]}} {
+						if ic, ok := isSetOp(pair[0], "Intersection"); ok {
+							a0, a1 := ic.Common().Args[0], ic.Common().Args[1]
+							f0, _ := loadedField(a0)
+							f1, _ := loadedField(a1)
+							if f1 == fFrom && a0 == pair[1] || f0 == fFrom && a1 == pair[1] {
+								checked = pair[1]
+							}
+						}
+					}
+				})
+				if checked == nil {
+					continue // not the idle-unit idiom (e.g. per-thread picking by membership)
+				}
+				// the predicate must not accept a unit without the check: every `return true`-capable exit is dominated by the Equals… (the idiom returns the conjunction itself)
+				cp := &canonizer{e: e, seen: map[ssa.Value]bool{}, unit: func(v ssa.Value) bool { p, ok := v.(*ssa.Parameter); return ok && p.Parent() == pred && len(pred.Params) > 0 && p == pred.Params[0] }}
+				S := cp.set(checked)
+				// units in the parent: elements of the picked slice
+				pickedCell := func(v ssa.Value) bool {
+					u, ok := v.(*ssa.UnOp)
+					if !ok || u.Op != token.MUL {
+						return false
+					}
+					ia, ok := u.X.(*ssa.IndexAddr)
+					if !ok {
+						return false
+					}
+					hit := false
+					Origins(ia.X, func(w ssa.Value) bool {
+						if w == pc.Value() {
+							hit = true
+						}
+						return hit
+					})
+					return hit
+				}
+				ct := &canonizer{e: e, seen: map[ssa.Value]bool{}, unit: pickedCell}
+				for _, b := range fn.Blocks {
+					for _, in := range b.Instrs {
+						u, ok := isSetOp(valueOf(in), "Union")
+						if !ok || !chainRoots(u.Common().Args[0])[fRes] {
+							continue
+						}
+						nAgree++
+						T := ct.set(variadicSingle(u.Common().Args[1]))
+						ok2, w := vennHolds(nil, []vennFact{subset(T, S)})
+						r.Check("R12:pick-take-agree@"+FnName(fn), "R12 pick/take agreement", "the set taken for a picked unit is within the set the pick predicate verified to be entirely in the remaining set",
+							e.InstrPos(u), fn, ok2, fmt.Sprintf("%s [checked idle: %s; taken: %s]", w, S, T), true)
+					}
+				}
+			}
+		}
+		r.MinInstances("pick-predicate stages", nAgree, 2)
 	}
 
 	// ---- rule 4: determinism --------------------------------------------------------------------
